@@ -109,16 +109,55 @@ def run(c, facts, tier):
     # the letter → bits function(s): any function char -> Mode
     letter_fns = [fn for fn in facts.fns.values() if not fn.test and [t for n_, t in fn.params if n_ != "self"] == ["char"] and norm_ty(fn.node.get("output") or "") == "Mode"]
     fb = b.fn_ir(pp.key)
-    leaves = []
-    g.walk(fb, lambda n_: leaves.append(n_) if n_["t"] == "set" and n_["cs"][0] == "in" else None, follow=False)
-    roles = {}
-    for n in leaves:
-        cs = "".join(sorted(n["cs"][1]))
+    # the parts of a clause in parsing order: character runs (who, perm) and the operator, which is either one character
+    # of [+-=] or a choice between exactly those three literals (possibly in a helper parser with its own value per literal)
+    parts = []
+
+    def op_literals(n_):
+        n0 = A.unwrap(n_)
+        if n0["t"] == "ref" and not n0.get("extra"):
+            sb = A.single_body(g.deref(n0))
+            if sb is None:
+                return None
+            n0 = sb
+        if n0["t"] != "alt":
+            return None
+        lits = []
+        for a_ in A.flat_alts(n0):
+            a0 = A.unwrap(a_)
+            while a0["t"] in ("value", "map"):
+                a0 = A.unwrap(a0["p"])
+            if a0["t"] != "lit":
+                return None
+            lits.append(a0["s"])
+        return lits
+
+    def collect(n_):
+        n0 = A.unwrap(n_)
+        if n0["t"] == "set" and n0["cs"][0] == "in":
+            parts.append((n0, "".join(sorted(n0["cs"][1])), (n0["min"], n0["max"])))
+            return
+        ol = op_literals(n0)
+        if ol is not None:
+            parts.append((n0, "".join(sorted(ol)) if all(len(x) == 1 for x in ol) else "|".join(ol), (1, 1)))
+            return
+        if n0["t"] in ("seq",):
+            for it in n0["items"]:
+                collect(it["p"])
+        elif n0["t"] in ("map", "trymap", "verify", "value"):
+            collect(n0["p"])
+
+    for p_ in g.body_seq(fb):
+        collect(p_)
+    op_nodes = {}
+    order = []
+    for n, cs, rng in parts:
         role = {"agou": "who", "+-=": "op", "rwx": "perm"}.get(cs, "?" + cs)
-        roles[id(n)] = role
-        want_rng = (1, None) if cs != "+-=" else (1, 1)
-        c.ob("C08.algebra", pp.key, "clause part %s = [%s]%s" % (role, cs, "+" if cs != "+-=" else ""), role[0] != "?" and (n["min"], n["max"]) == want_rng, "parser element %s range %s..%s" % (peg.cs_show(n["cs"]), n["min"], n["max"]), nontrivial=False)
-    order = [roles[id(n)] for n in leaves]
+        order.append(role)
+        if role == "op":
+            op_nodes[id(n)] = n
+        want_rng = (1, None) if role != "op" else (1, 1)
+        c.ob("C08.algebra", pp.key, "clause part %s = [%s]%s" % (role, cs, "+" if role != "op" else ""), role[0] != "?" and rng == want_rng, "parser element over %r, range %s..%s" % (cs, rng[0], rng[1]), nontrivial=False)
     c.ob("C08.algebra", pp.key, "clause parts are parsed in the order who, op, perm", order == ["who", "op", "perm"], "order of the clause parts in the parser: %s" % order, nontrivial=False)
     c.ob("C08.algebra", pp.key, "clause = who+ op perm+", sorted(order) == ["op", "perm", "who"], "roles: %s" % order)
     WHO = [P.Opq("who%d" % i_) for i_ in range(3)]
@@ -138,7 +177,19 @@ def run(c, facts, tier):
                 return list(PERM)
             if cs == "+-=":
                 return self.op
+            if node["t"] == "lit":
+                return node["s"]
             raise P.NoEval("unexpected leaf %s" % peg.show(node)[:40])
+
+        def choice(self, node):
+            # the operator written as a choice between literals: the branch of the operator under evaluation
+            for i_, a_ in enumerate(node["alts"]):
+                a0 = A.unwrap(a_)
+                while a0["t"] in ("value", "map"):
+                    a0 = A.unwrap(a0["p"])
+                if a0["t"] == "lit" and a0["s"] == self.op:
+                    return i_
+            raise P.NoEval("no branch for operator %r" % self.op)
 
     def tree_bits(t, asg):
         """One bit of a Mode expression tree under an assignment of its unknowns (bitwise operators only)."""
@@ -208,23 +259,36 @@ def run(c, facts, tier):
     for cv in clause.values():
         for a_ in cv[2]:
             calls(a_)
-    vfs = [f_ for f_ in letter_fns if f_.key in used]
-    vf = vfs[0] if len(vfs) == 1 else None
-    if vf is None:
-        c.ob("C08.who-perm", pp.key, "one letter → bits function", None, "letter functions applied by the clause parser: %s; %s" % (sorted(used), clause_err))
+    # which letter function the clause parser applies to the characters of each part
+    applied = {"who": set(), "perm": set()}
+    log_probe = ClauseCtx("=")
+    try:
+        irval.run_parser_fn(pp, log_probe)
+        for k_, a_ in log_probe.probe.opaque_log:
+            if len(a_) == 1 and any(a_[0] is x for x in WHO):
+                applied["who"].add(k_)
+            elif len(a_) == 1 and any(a_[0] is x for x in PERM):
+                applied["perm"].add(k_)
+            else:
+                applied["who"].add("%s(not a character of the text)" % k_)
+    except (P.NoEval, P.Panic):
+        pass
+    vfs = {r_: (facts.fns[sorted(ks)[0]] if len(ks) == 1 and sorted(ks)[0] in facts.fns else None) for r_, ks in applied.items()}
+    if vfs["who"] is None or vfs["perm"] is None:
+        c.ob("C08.who-perm", pp.key, "one letter → bits function", None, "letter functions applied by the clause parser: %s; %s" % ({r_: sorted(ks) for r_, ks in applied.items()}, clause_err))
     else:
         from .. import roles as _roles
 
-        vname = _roles.canonical(facts, vf.key) if vf.key != "Permission::value" else vf.key
-        vname = "Permission::value" if vname == vf.key and vf.key != "Permission::value" else vname
-        pr0 = P.Probe(facts, None, vf.module)
         for ch, val in list(posix["who"].items()) + list(posix["perm"].items()):
+            vf = vfs["who"] if ch in posix["who"] else vfs["perm"]
+            vname = "Permission::value"
+            pr0 = P.Probe(facts, None, vf.module)
             try:
                 got = pr0.invoke(vf, None, [ch])
             except (P.NoEval, P.Panic) as ex:
                 got = None
             got = got if isinstance(got, int) and not isinstance(got, bool) else None
-            c.ob("C08.who-perm", vname, "'%s' → %s" % (ch, val), got == int(val, 8), "value('%s') = %s; chmod: %s" % (ch, oct(got) if got is not None else None, val), witness="-perm %s" % ("%s+r" % ch if ch in "ugoa" else "u+%s" % ch) if got != int(val, 8) else None)
+            c.ob("C08.who-perm", vname, "'%s' → %s" % (ch, val), got == int(val, 8), "%s('%s') = %s; chmod: %s" % (vf.key.split("::")[-1], ch, oct(got) if got is not None else None, val), witness="-perm %s" % ("%s+r" % ch if ch in "ugoa" else "u+%s" % ch) if got != int(val, 8) else None)
         # a who / perm string is the OR of its letters: decided on the payload of '=' (which carries both unchanged)
         ok_or, det_or = None, clause_err.get("=", "no '=' clause")
         if "=" in clause and len(clause["="][2]) == 2:
